@@ -302,12 +302,14 @@ func (b *Balloon) QueryDigestMembershipConsistency(keyDigest hashing.Digest, ver
 	var err error
 	proof.Hasher = b.hasherF()
 	proof.KeyDigest = keyDigest
-	proof.QueryVersion = version
 	proof.CurrentVersion = b.version - 1
 
+	// a query beyond the current version is answered for the current one:
+	// the answer must name the version the proofs were actually built for
 	if version > proof.CurrentVersion {
 		version = proof.CurrentVersion
 	}
+	proof.QueryVersion = version
 
 	proof.HyperProof, err = b.hyperTree.QueryMembership(keyDigest)
 	if err != nil {
